@@ -130,8 +130,22 @@ def is_pack_call(t):
     return False
 
 
+def is_to_bytes(t):
+    """v.to_bytes(width, byteorder, signed=...): the other way of producing the little-endian two's complement bytes of an integer"""
+    return t[0] == 'mcall' and t[2] == 'to_bytes'
+
+
 def pack_args(t):
     """(positional arguments incl. the format, keyword arguments) of a packing call"""
+    if is_to_bytes(t):
+        kw = dict(t[4])
+        a = list(t[3])
+        width = a[0] if a else kw.get('length')
+        order = a[1] if len(a) > 1 else kw.get('byteorder')
+        signed = kw.get('signed', C(False))
+        if width is None or order is None or set(kw) - {'length', 'byteorder', 'signed'} or len(a) > 2:
+            return (), t[4]
+        return (('tobytes', width, order, signed), t[1]), ()
     if t[0] == 'call':
         return tuple(t[2]), t[3]
     r = strip_res(t[1])
@@ -201,6 +215,102 @@ def size_of(model, cls, key_attr, len_attr, kw):
     return r
 
 
+STR_METHODS_UNDERSTOOD = {'lower', 'upper', 'swapcase', 'strip', 'lstrip', 'rstrip', 'replace', 'format', 'title', 'capitalize', 'casefold', 'zfill'}
+
+
+def understood_expression(v, x):
+    """The value is built from attributes of item x and constants by arithmetic, slicing, conditional expressions and plain str
+    methods only: everything the evaluator models.  A conversion / helper / builtin call is not (its effect on the value is not
+    known to the rule, e.g. str(fmt) is the identity for a str)."""
+    if not isinstance(v, tuple) or not v:
+        return True
+    if not isinstance(v[0], str):
+        return all(understood_expression(y, x) for y in v)
+    k = v[0]
+    if k in ('const',):
+        return True
+    if k == 'attr':
+        return v[1] == x
+    if k in ('bin', 'cmp'):
+        return understood_expression(v[2], x) and understood_expression(v[3], x)
+    if k == 'un':
+        return understood_expression(v[2], x)
+    if k == 'ifexp':
+        return all(understood_expression(y, x) for y in v[1:4])
+    if k == 'mcall':
+        return v[2] in STR_METHODS_UNDERSTOOD and understood_expression(v[1], x) and understood_expression(v[3], x) and not v[4]
+    if k in ('sub', 'slice'):
+        return all(understood_expression(y, x) for y in v[1:] if isinstance(y, tuple))
+    return False
+
+
+def enclosing_handlers_fall_through(node, exc_names=('struct.error', 'Exception', 'BaseException', 'OverflowError', 'ValueError')):
+    """The statement sits in the body of a `try` whose handler for a packing error does not leave (raise / return / continue): what
+    that handler does afterwards (e.g. packing again with another format) belongs to the same conversion."""
+    child, p = node, getattr(node, '_parent', None)
+    while p is not None and not isinstance(p, (ast.FunctionDef, ast.Lambda)):
+        if isinstance(p, ast.Try) and any(child is b for b in p.body):
+            for h in p.handlers:
+                names = [dotted(e) for e in h.type.elts] if isinstance(h.type, ast.Tuple) else [dotted(h.type)] if h.type is not None else [None]
+                if any(n is None or n in exc_names for n in names):
+                    last = h.body[-1] if h.body else None
+                    leaves = isinstance(last, (ast.Return, ast.Continue, ast.Break)) or (isinstance(last, ast.Raise) and last.exc is not None)
+                    if not leaves:
+                        return True
+        child, p = p, getattr(p, '_parent', None)
+    return False
+
+
+FORMAT_SAMPLES = ['<I', '<i', '>H', '<B', '=q', 'b', '<Q', '!h']
+VALUE_SAMPLES = [0, 1, -1, 127, 128, 255, 256, -128, -129, 65535, 2 ** 31, 2 ** 32 - 1, 2 ** 32, -2 ** 63, 2 ** 64 - 1, 2 ** 64 + 5]
+
+
+def identity_on_samples(facts, expr, leaf, samples, classes=None):
+    """Bounded check (over the listed samples, not a proof): does the expression return its input unchanged?
+    True | (False, sample, result) | None when it cannot be evaluated."""
+    for sample in samples:
+        try:
+            got = SymEval(facts, {leaf: sample}, classes).ev(expr)
+        except Undecided:
+            return None
+        if got != sample or type(got) is not type(sample):
+            return (False, sample, got)
+    return True
+
+
+def arith_operands(val):
+    """The values an arithmetic expression is computed from: maximal sub-terms that are plain values (a variable, an attribute, an
+    element of a list ...), constants aside."""
+    v = strip_res(val)
+    if v[0] in ATOMIC:
+        return [v]
+    if v[0] == 'const':
+        return []
+    out = []
+    for x in v[1:]:
+        if isinstance(x, tuple) and x and isinstance(x[0], str):
+            out += arith_operands(x)
+        elif isinstance(x, tuple):
+            for y in x:
+                if isinstance(y, tuple) and y and isinstance(y[0], str):
+                    out += arith_operands(y)
+    return out
+
+
+def own_arithmetic(val):
+    """Arithmetic / wrapping applied to the value itself (not to an index or a receiver inside it)."""
+    v = strip_res(val)
+    if v[0] == 'bin' and v[1] in NARROWING:
+        return True
+    if v[0] == 'call' and v[1] in WRAPPERS:
+        return True
+    if v[0] == 'mcall' and v[2] == 'value' or (v[0] == 'attr' and v[2] == 'value' and v[1][0] == 'call' and v[1][1] in WRAPPERS):
+        return True
+    if v[0] == 'ifexp':
+        return own_arithmetic(v[2]) or own_arithmetic(v[3])
+    return False
+
+
 def check_integer_directives(rep, model, doc_text):
     facts = model.facts
     # pack: which attributes of a Pack item reach struct.pack as format and as value
@@ -209,11 +319,30 @@ def check_integer_directives(rep, model, doc_text):
     for fname, p, x, s, node in pack_sites:
         a = [strip_res(y) for y in pack_args(s)[0]]
         ok = len(a) == 2 and not pack_args(s)[1] and all(y[0] == 'attr' and y[1] == x for y in a) and a[0][2] != a[1][2]
-        if not ok and find_all(tuple(a), lambda u: u[0] in ('callv', 'opaque') or (u[0] == 'call' and u[1] not in ('int', 'str', 'abs', 'min', 'max', 'len'))):
+        if not ok and not (len(a) == 2 and not pack_args(s)[1] and understood_expression(tuple(a), x)):
             raise AnalysisError('{}: what is packed for a Pack item is not understood: {}'.format(fname, show(s)[:120]))
+        if isinstance(node, ast.AST) and enclosing_handlers_fall_through(node):
+            raise AnalysisError('{}: a packing error of {} is handled by carrying on: the conversion is not understood'.format(fname, show(s)[:80]))
+        witness = None
+        if not ok:
+            # each argument is an understood expression over one attribute of the item: the given format / value must come out unchanged
+            # (evaluated on FORMAT_SAMPLES / VALUE_SAMPLES: a bounded check, a difference is a witness)
+            attrs = []
+            for y, samples in zip(a, (FORMAT_SAMPLES, VALUE_SAMPLES)):
+                leaves = [t for t in find_all(y, lambda t: t[0] == 'attr' and t[1] == x)]
+                if len(set(leaves)) != 1:
+                    raise AnalysisError('{}: what is packed for a Pack item is not understood: {}'.format(fname, show(s)[:120]))
+                verdict = identity_on_samples(facts, y, leaves[0], samples)
+                if verdict is None:
+                    raise AnalysisError('{}: what is packed for a Pack item cannot be evaluated: {}'.format(fname, show(y)[:100]))
+                if verdict is not True:
+                    witness = (show(y), verdict[1], verdict[2])
+                attrs.append(leaves[0])
+            if witness is None:
+                a, ok = attrs, attrs[0][2] != attrs[1][2]
         rep.check(ok, 'R10.3.pack', '{}: pack emits struct.pack(<the item\'s format>, <the item\'s value>)'.format(fname),
-                  lambda s=s, node=node, fname=fname: Finding('R10.3.pack', fname, node, 'pack emits struct.pack({}) instead of the given format applied to the given value'.format(
-                      ', '.join(show(y) for y in pack_args(s)[0])), line=getattr(node, 'lineno', None)))
+                  lambda s=s, node=node, fname=fname, witness=witness: Finding('R10.3.pack', fname, node, 'pack emits struct.pack({}) instead of the given format applied to the given value{}'.format(
+                      ', '.join(show(y) for y in pack_args(s)[0]), ': {} turns {!r} into {!r}'.format(*witness) if witness else ''), line=getattr(node, 'lineno', None)))
         if ok:
             if fmt_attr not in (None, a[0][2]) or val_attr not in (None, a[1][2]):
                 raise AnalysisError('Pack: struct.pack sites disagree about the format / value attributes')
@@ -225,7 +354,17 @@ def check_integer_directives(rep, model, doc_text):
         raise AnalysisError('no struct.pack site handling Pack items was understood')
     msize = model.method('Pack', 'size')
     rets = model.returns(msize)
-    ok = bool(rets) and all(strip_res(v) == ('call', 'struct.calcsize', (('attr', SELF, fmt_attr),), ()) for _, v, _ in rets)
+    the_fmt = ('attr', SELF, fmt_attr)
+    good = (('call', 'struct.calcsize', (the_fmt,), ()), ('attr', ('call', 'struct.Struct', (the_fmt,), ()), 'size'))
+    ok = bool(rets) and all(strip_res(v) in good for _, v, _ in rets)
+    if not ok:
+        # wrong only when it is the struct size of something else that is understood (another attribute, a changed format)
+        for _, v, _ in rets:
+            v = strip_res(v)
+            other = v[2][0] if v[0] == 'call' and v[1] == 'struct.calcsize' and len(v[2]) == 1 else \
+                v[1][2][0] if v[0] == 'attr' and v[2] == 'size' and v[1][0] == 'call' and v[1][1] == 'struct.Struct' and len(v[1][2]) == 1 else None
+            if v not in good and not (other is not None and understood_expression(other, SELF)) and not is_const(v):
+                raise AnalysisError('Pack.size() returns {}: not understood'.format(show(v)[:80]))
     rep.check(ok, 'R10.3.pack', 'Pack.size() == struct.calcsize of the format that is packed',
               lambda: Finding('R10.3.pack', 'Pack.size', msize, 'Pack.size() is not the size of the format that is packed', line=msize.lineno))
     order = dict((attr, src) for attr, src in facts.full_attr_order('Pack'))
@@ -237,7 +376,7 @@ def check_integer_directives(rep, model, doc_text):
     for cls, doc_heading, want in (('Sequence', 'integer sequences', oracle.SEQUENCE_WIDTHS), ('ShorthandPack', 'shorthand', oracle.SHORTHAND_WIDTHS)):
         key_attr, len_attr = key_attribute(model, cls)
         if cls == 'Sequence':
-            raw = model.sites(cls, is_pack_call)
+            raw = model.sites(cls, lambda t: is_pack_call(t) or is_to_bytes(t))
             for f, p, x, s, node in raw:
                 if len(pack_args(s)[0]) != 2 or pack_args(s)[1]:
                     raise AnalysisError('{}: packing call {} is not (format, one value)'.format(f, show(s)[:100]))
@@ -257,8 +396,20 @@ def check_integer_directives(rep, model, doc_text):
         # the value that is packed is the user's value, untouched
         live_sites = []
         for f, p, x, fmt, val, node in sites:
-            narrowing = find_all(val, lambda t: t[0] == 'bin' and t[1] in NARROWING) or find_all(val, lambda t: t[0] in ('call', 'mcall') and (t[1] in WRAPPERS or (t[0] == 'mcall' and t[2] == 'value')))
+            narrowing = own_arithmetic(val)
             inst = '{} [{}]'.format(f, p.cond_text()[-60:])
+            if isinstance(node, ast.AST) and enclosing_handlers_fall_through(node):
+                raise AnalysisError('{}: a packing error is handled by carrying on (another attempt may follow): the choice of the format is not understood'.format(f))
+            if narrowing:
+                leaves = set(arith_operands(val))
+                # one operand and constants: the arithmetic may be the identity (value + 0), which the samples decide; arithmetic that
+                # mixes the value with other program values (value + (1 << bits) ...) is a modification of the user's value
+                verdict = identity_on_samples(facts, val, next(iter(leaves)), VALUE_SAMPLES) if len(leaves) == 1 else (False, None, None) if len(leaves) > 1 else None
+                if verdict is True:
+                    narrowing = False            # arithmetic that gives the value back (value + 0, value * 1 ...)
+                    val = next(iter(leaves))
+                elif verdict is None:
+                    raise AnalysisError('{}: the packed value {} cannot be evaluated'.format(f, show(val)[:100]))
             if narrowing:
                 rep.fail(Finding('R10.2.no-narrowing', f, node, 'the value handed to struct.pack is {} - arithmetic between the user\'s value and the packing silently '
                                  'wraps values that do not fit'.format(show(val)[:120]), line=getattr(node, 'lineno', None)), instance=inst)
@@ -277,6 +428,8 @@ def check_integer_directives(rep, model, doc_text):
                 base = SymEval(facts, {keysym: kw}, {x: cls})
                 try:
                     bps = breakpoints([fmt] + [t for t, _, _ in p.conds], val, base)
+                    if fmt[0] == 'tobytes':
+                        bps = set(bps) | {0}
                 except Undecided as e:
                     raise AnalysisError('{}: {}'.format(f, e))
                 samples = sorted({-1, 0, 1} | {c + d for c in bps for d in (-1, 0, 1)})
@@ -287,7 +440,16 @@ def check_integer_directives(rep, model, doc_text):
                     neg = v < 0
                     inst = '{} {} [{}]'.format(f, kw, 'negative' if neg else 'non-negative')
                     try:
-                        got = ev.ev(fmt)
+                        if fmt[0] == 'tobytes':
+                            width, order, signed = ev.ev(fmt[1]), ev.ev(fmt[2]), ev.ev(fmt[3])
+                            if not (isinstance(width, int) and order in ('little', 'big') and isinstance(signed, bool)):
+                                raise Undecided('to_bytes({!r}, {!r}, signed={!r})'.format(width, order, signed))
+                            letter = {1: 'B', 2: 'H', 4: 'I', 8: 'Q'}.get(width)
+                            if letter is None:
+                                raise Undecided('to_bytes width {}'.format(width))
+                            got = ('<' if order == 'little' else '>') + (letter.lower() if signed else letter)
+                        else:
+                            got = ev.ev(fmt)
                     except LookupFailed as e:
                         rep.fail(Finding('R10.1.width', f, node, '`{}` is documented but has no struct format ({})'.format(kw, e), line=getattr(node, 'lineno', None)), instance=inst)
                         continue
@@ -535,6 +697,10 @@ def check_include_bytes(rep, model):
                     continue
                 for d in cg.funcs[h].decorator_list:
                     dn = dotted(d.func) if isinstance(d, ast.Call) else dotted(d)
+                    if dn in MEMO and isinstance(d, ast.Call) and any(
+                            isinstance(v, ast.Constant) and v.value == 0 and not isinstance(v.value, bool)
+                            for v in list(d.args[:1]) + [k.value for k in d.keywords if k.arg == 'maxsize']):
+                        continue            # a cache of size 0 stores nothing
                     if dn in MEMO:
                         rep.fail(Finding('R10.5.fresh-read', h, cg.funcs[h], '{}() reaches {}({}) but is memoised with @{}: the content of an include_bytes file is read once per '
                                          'process, a later assemble() of a changed file emits stale bytes (and its size check compares against the old content)'.format(
@@ -545,7 +711,7 @@ def check_include_bytes(rep, model):
             ks = set(pv.kinds(arg, q)) - {'NoneK'}
             # a violation is text of the source line (or a literal) reaching the filesystem; any other mixture of kinds is an
             # imprecision of the (field-name based, context-insensitive) dataflow: no verdict
-            if ks != {'Resolved'} and not ks & {'RawToken', 'Literal'}:
+            if ks != {'Resolved'} and (not ks & {'RawToken', 'Literal'} or 'Ambiguous' in ks):
                 unclear.append('{}: the path given to {}({}) could not be classified ({})'.format(q, name, unparse(arg), sorted(ks)))
                 continue
             rep.check(ks == {'Resolved'}, 'R10.5.provenance', '{}: {}({}) uses the path the include search returned'.format(q, name, unparse(arg)),
@@ -569,19 +735,31 @@ def check_include_bytes(rep, model):
     n_blobs = 0
     for fname, p, x, s, node in model.sites('IncludeBytes', lambda t: t[0] == 'new' and t[1] == 'Blob'):
         fields = ctor_fields(facts, s)
-        datas = [strip_res(v) for k, v in fields.items() if find_all(v, lambda t: t[0] == 'call' and t[1] in ('open', 'io.open'))]
+        is_path_obj = lambda r: (r[0] == 'call' and r[1] in ('pathlib.Path', 'Path')) or (r[0] == 'mcall' and r[1] == ('name', 'pathlib') and r[2] == 'Path')
+        is_read_bytes = lambda t: t[0] == 'mcall' and t[2] == 'read_bytes' and not t[3] and is_path_obj(strip_res(t[1]))
+        datas = [strip_res(v) for k, v in fields.items() if find_all(v, lambda t: (t[0] == 'call' and t[1] in ('open', 'io.open')) or is_read_bytes(t))]
         if not datas:
             continue
         n_blobs += 1
         data = datas[0]
-        opens = find_all(data, lambda t: t[0] == 'call' and t[1] in ('open', 'io.open'))
-        shape_ok = data[0] == 'mcall' and data[2] == 'read' and not data[3] and data[1][0] == 'ctx' and strip_res(data[1][1]) == opens[0]
-        if not shape_ok:
-            raise AnalysisError('{}: the embedded data {} is not <open(path, mode)>.read()'.format(fname, show(data)[:100]))
-        o = opens[0]
-        kw = dict(o[3])
-        mode = o[2][1] if len(o[2]) > 1 else kw.get('mode', C('r'))
+        if is_read_bytes(data):
+            o, mode = strip_res(data[1]), C('rb')          # Path(p).read_bytes(): binary by definition
+        else:
+            opens = find_all(data, lambda t: t[0] == 'call' and t[1] in ('open', 'io.open'))
+            handle = strip_res(data[1]) if data[0] == 'mcall' else None
+            shape_ok = data[0] == 'mcall' and data[2] == 'read' and not data[3] and handle is not None and (
+                (handle[0] == 'ctx' and strip_res(handle[1]) == opens[0]) or handle == opens[0])
+            if not shape_ok:
+                raise AnalysisError('{}: the embedded data {} is not <open(path, mode)>.read()'.format(fname, show(data)[:100]))
+            o = opens[0]
+            kw = dict(o[3])
+            mode = o[2][1] if len(o[2]) > 1 else kw.get('mode', C('r'))
         onode = next((e[2] for e in p.events if e[0] == 'with' and strip_res(e[1]) == o), node)
+        if not is_const(mode):
+            try:
+                mode = C(SymEval(facts).ev(mode))          # a named module-level constant
+            except Undecided as e:
+                raise AnalysisError('{}: the mode the include_bytes file is opened with ({}) is not a constant: {}'.format(fname, show(mode)[:40], e))
         rep.check(is_const(mode) and isinstance(mode[1], str) and 'b' in mode[1] and 'r' in mode[1] and '+' not in mode[1], 'R10.5.binary', '{}: include_bytes reads in binary mode'.format(fname),
                   lambda mode=mode, node=onode, fname=fname: Finding('R10.5.binary', fname, node, 'the file is opened with mode {}: content is decoded / newline-translated'.format(show(mode)), line=getattr(node, 'lineno', None)))
         length, size = ('call', 'len', (normalise(facts, data),), ()), ('attr', x, size_attr)
@@ -599,6 +777,11 @@ def check_include_bytes(rep, model):
                         guarded = True
                     elif find_all(other, lambda u: u[0] in ('mcall', 'callv', 'new') or (u[0] == 'call' and u[1] not in ('len', 'int', 'abs', 'min', 'max'))):
                         unclear = other
+        if not guarded and unclear is None:
+            for t, pol in tests:
+                t = normalise(facts, t)
+                if contains(t, length) and contains(t, size):
+                    unclear = t         # the two are related by a test of another shape (a difference, an ordering ...)
         if not guarded and unclear is not None:
             raise AnalysisError('{}: the content length is compared with {}, which is not understood'.format(fname, show(unclear)[:80]))
         rep.check(guarded, 'R10.5.size-check', '{}: content length is checked against the size the labels were computed from'.format(fname),
@@ -623,9 +806,21 @@ def run(repo, tier):
     rep.not_decided = ['that struct.pack refuses every misfit (library contract)', 'lone surrogates and malformed escapes in string text']
     model = Model(facts)
     doc_text = repo.text['docs/assembly_language.rst']
-    check_integer_directives(rep, model, doc_text)
-    check_strings(rep, model)
-    check_include_bytes(rep, model)
+    # a group of rules that does not understand the code must not mask a violation that another group establishes: its
+    # no-verdict is recorded and raised at the end of the run only if there is no finding
+    for group in (lambda: check_integer_directives(rep, model, doc_text), lambda: check_strings(rep, model), lambda: check_include_bytes(rep, model)):
+        try:
+            group()
+        except AnalysisError as e:
+            rep.undecided(str(e))
+    # every data item owns the bytes it emits (a scratch buffer shared between directives gives all of them the last one's bytes).
+    # The rule looks at the statements before / inside the item loop only, so it is given the loop itself and not a full
+    # PassAnalysis (whose size algebra does not cover every shape of these passes and must not decide this property's verdict).
+    from .. import layoutrules as _LR
+    import types
+    for name_ in ('resolve_strings', 'resolve_sequences', 'transform_shorthand_packs', 'resolve_packs', 'resolve_include_bytes'):
+        if name_ in facts.funcs:
+            _LR.check_shared_buffers(rep, facts, facts.funcs[name_], 'R10.6.own-payload')
     rep.floor('width table rows', 9)
     rep.floor('sign/format cases', 18)
     rep.floor('pack sites', 1)
